@@ -199,6 +199,40 @@ def scenario_of(hist, mats, snis):
     return {"steps": steps}
 
 
+def fault_scenarios():
+    """a TLS + redirect service with a static certificate (alone / with a sub-path service that inherits its flags); the
+    certificate files become unreadable; restart; requests; the files come back; restart; requests (corr/C16fault.v)"""
+    H = m4.H
+    out = []
+    for with_sub in (False, True):
+        for redirect in (True, False):
+            steps, reqs = [], []
+
+            def dep(cid, name, prefixes, tls, cert, tgt):
+                return {"op": "deploy", "id": cid, "name": H(name), "hosts": [H(b"a.example.com")], "prefixes": [H(p) for p in prefixes],
+                        "tls": tls, "tls_redirect": redirect, "strip": False, "cert": cert, "pages": "none",
+                        "targets": [{"name": H(tgt), "probes": ["ok"]}], "deploy_timeout": m4.DEPLOY_TIMEOUT, "drain_timeout": SEC,
+                        "topts": {"health_path": H(b"/up")}}
+
+            def request(phase, uri, tls):
+                rid = "f%d" % len(reqs)
+                steps.append({"op": "request", "id": rid, "async": False, "host": H(b"a.example.com"), "uri": H(uri), "tls": tls,
+                              "method": "GET", "headers": []})
+                reqs.append({"id": rid, "phase": phase, "tls": tls, "uri": uri.decode()})
+            steps.append(dep("c0", b"web", [], True, "good", b"ta:80"))
+            if with_sub:
+                steps.append(dep("c1", b"api", [b"/api"], False, "none", b"tb:80"))
+            for phase, pre in (("unreadable", "gone"), ("readable-again", "back")):
+                steps.append({"op": "cert_files", "id": "x-" + pre, "state": pre})
+                steps.append({"op": "restart", "id": "r-" + pre})
+                for uri in ([b"/", b"/docs?x=1"] + ([b"/api/v1"] if with_sub else [])):
+                    if redirect or phase == "unreadable":
+                        request(phase, uri, False)
+                    request(phase, uri, True)
+            out.append({"scenario": {"steps": steps}, "reqs": reqs, "with_sub": with_sub, "redirect": redirect})
+    return out
+
+
 ANSWER = {"refused": 0, "static": 1, "automatic": 2}
 IMPORTS = ("From KP Require Import model.Base model.ServiceMap model.Seq model.Tls corr.M4corr corr.C16corr.\n"
            "Local Open Scope N_scope.\n")
@@ -209,7 +243,7 @@ def run(tier, seed):
     work = Work("C16")
     try:
         t_phase = [time.time()]
-        ok, blog = coq_build(["props/C16.vo", "corr/C16corr.vo"])
+        ok, blog = coq_build(["props/C16.vo", "corr/C16corr.vo", "corr/C16fault.vo"])
         t_phase.append(time.time())
         proofs_ok, pa = proof_obligations(work, res, "C16.v", ok, blog)
         gate = m4x.gate_for(["props/C16.v", "corr/C16corr.v"])
@@ -242,6 +276,33 @@ def run(tier, seed):
                     "c16_cert_mismatches fixed (upto_panic h) cs, c16_monitor (upto_panic h) cs, "
                     "targets_modelled h, c16_stats (upto_panic h) cs)")
             results = m4x.coq_map(work, IMPORTS, defs, terms, expr, "C16", shard=5)
+        # the policy across a restart at which the certificate files are unreadable (corr/C16fault.v)
+        faults = fault_scenarios()
+        fault_bad = []
+        if harness_ok and ok:
+            f_ok, f_out, f_outs = m4x.go_run(work, [x["scenario"] for x in faults], ["c16_test.go"])
+            if not f_ok:
+                harness_ok, gout = False, f_out
+            else:
+                items = []
+                for x, o in zip(faults, f_outs):
+                    rs = {r["id"]: r for r in o["results"]}
+                    # with redirect off a plain-HTTP request is forwarded by design: only the "unreadable" phase is judged for those
+                    sel = [q for q in x["reqs"] if x["redirect"] or q["tls"] or q["phase"] == "unreadable"]
+                    if not x["redirect"]:
+                        sel = [q for q in sel if q["tls"]]
+                    x["judged"] = sel
+                    items.append("[%s]" % "; ".join("(%s, (%d)%%N, %s)" % (bool_lit(q["tls"]), rs.get(q["id"], {}).get("status", 0),
+                                                                        bool_lit(bool(rs.get(q["id"], {}).get("served_by")))) for q in sel))
+                rows = m4x.coq_map(work, "From KP Require Import model.Base corr.C16fault.\nLocal Open Scope N_scope.\n", "", items,
+                                   "fun l => c16_fault_bad l", "C16fault", shard=4)
+                for j, bad in enumerate(rows):
+                    if bad:
+                        rs = {r["id"]: r for r in f_outs[j]["results"]}
+                        fault_bad.append((j, [dict(faults[j]["judged"][k], status=rs.get(faults[j]["judged"][k]["id"], {}).get("status"),
+                                                   served_by=rs.get(faults[j]["judged"][k]["id"], {}).get("served_by")) for k in bad],
+                                          {r["id"]: r.get("result") for r in f_outs[j]["results"] if r.get("op") == "restart"}))
+        res.coverage["restart_with_unreadable_certificate"] = {"scenarios": len(faults), "bad": len(fault_bad)}
         t_phase.append(time.time())
         mon_fail, disagree = [], []
         stats = [0, 0, 0, 0]
@@ -335,7 +396,14 @@ def run(tier, seed):
             p["observed"] = obs
             return p
         CL = {1: "request", 2: "inheritance", 3: "certificate", 4: "wildcard"}
-        if mon_fail:
+        if fault_bad and not mon_fail:
+            j, bad, restarts = fault_bad[0]
+            res.violation("fault-%d" % j, {
+                "property": "C16", "seed": seed, "tier": tier,
+                "what": "a restart at which the static certificate files cannot be read: the TLS policy of the service was dropped (a "
+                        "plain-HTTP request is answered other than 301 / 404, or forwarded; corr/C16fault.fault_req_ok)",
+                "scenario": faults[j]["scenario"], "wrong_answers": bad, "restart_results": restarts})
+        elif mon_fail:
             j, mon = mon_fail[0]
             res.violation("monitor-%d" % j, replay_payload(
                 j, "monitor c16_monitor false on an implementation history (clauses: request = redirect/refusal, inheritance = "
